@@ -407,10 +407,9 @@ func ruleKeyedStores(r *Run) {
 					if f, _, ok2 := loadOfField(gc.Call.Value); ok2 && f == "grouper" {
 						isGrouper = true
 					}
-					if prm, ok2 := gc.Call.Value.(*ssa.Parameter); ok2 && prm.Name() == "grouper" {
-						isGrouper = true
-					}
-					if fv, ok2 := gc.Call.Value.(*ssa.FreeVar); ok2 && fv.Name() == "grouper" {
+					// a function value (parameter / captured variable) of the grouper shape:
+					// func(AggregatedLabels, ...string) AggregatedLabels
+					if gc.Common().StaticCallee() == nil && !gc.Call.IsInvoke() && isGrouperSig(gc.Call.Value.Type()) {
 						isGrouper = true
 					}
 				}
@@ -609,4 +608,12 @@ func ruleFreshMaps(r *Run) {
 	if !bad {
 		o.OK("%d call site(s) pass nil / maps.Clone / make", n)
 	}
+}
+
+func isGrouperSig(t types.Type) bool {
+	sg, ok := t.Underlying().(*types.Signature)
+	if !ok || sg.Params().Len() != 2 || sg.Results().Len() != 1 || !sg.Variadic() {
+		return false
+	}
+	return strings.HasSuffix(sg.Params().At(0).Type().String(), "AggregatedLabels") && strings.HasSuffix(sg.Results().At(0).Type().String(), "AggregatedLabels")
 }
